@@ -26,6 +26,8 @@ type PropConfig struct {
 	SweepSkip   []string `json:"sweep_skip"`   // display names excluded from the reachability sweep (with reason in Notes)
 	Lemmas      []string `json:"lemmas"`       // lemma names
 	Required    []string `json:"required"`     // obligation name prefixes that must be generated
+	Variant     string   `json:"variant"`      // contract variant (e.g. "intf") under which VariantFns are verified in addition
+	VariantFns  []string `json:"variant_functions"`
 	Locks       bool     `json:"locks"`        // include the lock-discipline obligations (guard, lockorder, lockbalance)
 	Kinds       []string `json:"kinds"`        // restrict to obligation kinds (empty = all)
 	Clauses     []string `json:"clauses"`      // for functions shared between properties: only these post clause ids (empty = all)
@@ -155,6 +157,9 @@ func cmdCheck(args []string) int {
 		addFn(n, true)
 	}
 	for _, n := range sortedKeys(pc.Posts) {
+		if strings.Contains(n, "@") {
+			continue // posts of a contract variant: the function is generated with variant_functions
+		}
 		addFn(n, true)
 	}
 	for _, n := range pc.Sweep {
@@ -192,6 +197,24 @@ func cmdCheck(args []string) int {
 			}
 			addFn(displayName(fn), false)
 		}
+	}
+	if pc.Variant != "" {
+		// the same functions again under the variant contracts (obligation names carry @variant)
+		w.ActiveVariant = pc.Variant
+		for _, n := range pc.VariantFns {
+			fn := byName[n]
+			if fn == nil {
+				missing = append(missing, n+" (variant "+pc.Variant+")")
+				continue
+			}
+			con := w.contractFor(fn)
+			if con == nil || con.Variant != pc.Variant {
+				missing = append(missing, n+" (no "+pc.Variant+" contract)")
+				continue
+			}
+			results = append(results, genFunc(p, w, fn, con, exceptsFor(known, n+"@"+pc.Variant)))
+		}
+		w.ActiveVariant = ""
 	}
 	for _, ln := range pc.Lemmas {
 		ax := w.AxByName[ln]
